@@ -53,7 +53,9 @@ func runProg(prog string, docs ...any) (string, int) {
 	return out.String(), legal(err, "EvalProgram")
 }
 
-func isNum(c *lang.Cell) bool  { return c != nil && c.Value.Tag == lang.ValueNum && c.Value.Num != nil }
-func isBool(c *lang.Cell) bool { return c != nil && c.Value.Tag == lang.ValueBool && c.Value.Bool != nil }
+func isNum(c *lang.Cell) bool { return c != nil && c.Value.Tag == lang.ValueNum && c.Value.Num != nil }
+func isBool(c *lang.Cell) bool {
+	return c != nil && c.Value.Tag == lang.ValueBool && c.Value.Bool != nil
+}
 func isStr(c *lang.Cell) bool  { return c != nil && c.Value.Tag == lang.ValueStr && c.Value.Str != nil }
 func isNull(c *lang.Cell) bool { return c != nil && c.Value.Tag == lang.ValueNil }
